@@ -32,7 +32,7 @@ ASSUMPTIONS = [
 ]
 REQUIRED = {"all": ["salted_objects", "renders_checked", "valid_updates", "rejected_missing_key", "rejected_bad_colour", "rejected_non_dict",
                     "rejected_padded_missing_key", "multi_object_histories", "lengths_10k_plus_1", "render_after_reject", "rejected_empty_mapping",
-                    "caller_edits_after_accept", "second_handle_updates", "long_update_histories", "live_palette_dictionaries_handed_back"]}
+                    "caller_edits_after_accept", "second_handle_updates", "long_update_histories", "live_palette_dictionaries_handed_back", "palette_updates_on_shuffled_copies"]}
 NHIST = {"quick": 1000, "thorough": 8000}
 COLOURS = ['aqua', 'black', 'blue', 'fuchsia', 'gray', 'green', 'lime', 'maroon', 'navy', 'olive', 'orange', 'purple',
            'red', 'silver', 'teal', 'white', 'yellow']
@@ -225,6 +225,16 @@ def judge(case, rep, S):
         ctx = "after %s update #%d, history %s" % ("accepted" if accepted else "rejected", step + 1, hist)
         for o, s, m in zip(objs, seqs, models):
             check_render(rep, o.get_HTMLColorString(), s, m, ctx)
+        if rng.random() < 0.12:
+            # a shuffled copy (nothing, something or everything frozen) is another object: colouring it does not colour its parent
+            N_ = len(seqs[k])
+            fz = rng.choice([[], list(range(N_)), list(range(N_ - 1)), list(range(1, N_)), list(range(0, N_, 2))])
+            child = objs[k].get_shuffled_sequence(fz)
+            d4 = {a: rng.choice(COLOURS) for a in M.AA}
+            child.set_HTMLColorResiduePalette(d4)
+            rep.cnt("palette_updates_on_shuffled_copies")
+            check_render(rep, child.get_HTMLColorString(), child.get_sequence(), d4, ctx + " + update on a shuffled copy (copy itself)")
+            check_render(rep, objs[k].get_HTMLColorString(), seqs[k], models[k], ctx + " + update on a shuffled copy (frozen %d of %d positions) - the parent" % (len(fz), N_))
         if rng.random() < 0.15:
             # a second front-end handle on the same backend object sees (and sets) the same palette
             h2 = SP(SeqObj=objs[k].SeqObj)
